@@ -83,10 +83,11 @@ def extract_label(label):
     """
     if not isinstance(label, string_types):
         return []
-    match = LABEL_EXTRACT_REGEXP.match(label.upper())  # the parts spell their indices in upper case
+    match = LABEL_EXTRACT_REGEXP.match(label)  # (not label.upper(): that makes FI of a ligature)
     if match is None:
         return []
     column_abs, column, row_abs, row = match.groups()
+    column = column.upper()  # the parts spell their indices in upper case
 
     return [
         ParsedLabel(
